@@ -365,6 +365,16 @@ class Interp(Hooks):
                 if isinstance(c, ast.AugAssign) and isinstance(c.op, ast.Add) and isinstance(c.value, (ast.List, ast.Tuple)) and any(is_param(x) for x in c.value.elts):
                     out.add(name)
         if not out:
+            # the parameter may reach the stack through a local (`tail = [action]` ... extend / slice assignment)
+            for name, m in self.hist_cls.methods.items():
+                if name == "__init__" or len(m.params) < 2:
+                    continue
+                in_list = any(isinstance(x, (ast.List, ast.Tuple)) and any(isinstance(y, ast.Name) and y.id in m.params[1:] for y in x.elts) for x in ast.walk(m.node))
+                writes = any(isinstance(x, (ast.Assign, ast.AugAssign)) and any(isinstance(t, (ast.Subscript, ast.Attribute)) and norm(t).startswith("self.") for t in (x.targets if isinstance(x, ast.Assign) else [x.target]))
+                             for x in ast.walk(m.node)) or any(isinstance(x, ast.Call) and call_name(x) in ("extend", "append") and norm(x.func.value).startswith("self.") for x in ast.walk(m.node))
+                if in_list and writes:
+                    out.add(name)
+        if not out:
             raise AnalysisError("history class has no registering method")
         return out
 
@@ -1672,6 +1682,24 @@ class Engine(CondMixin, Interp):
         if forked is not None:
             return self.dedupe(forked)
         for c in self.inlinable_calls(stmt, d):
+            # f(...) where the local f holds a bound method reached from a parameter (`step = self.action_history.undo`):
+            # continue with the call written out
+            if isinstance(c.func, ast.Name) and isinstance(d.vars.get(c.func.id), str) and _re.fullmatch(r"\$\w+(\.\w+){2,}", d.vars[c.func.id]) \
+                    and not getattr(c, "_spelled", False):
+                try:
+                    fexpr = ast.parse(d.vars[c.func.id][1:], mode="eval").body
+                except SyntaxError:
+                    fexpr = None
+                if fexpr is not None:
+                    call2 = ast.copy_location(ast.Call(func=fexpr, args=c.args, keywords=c.keywords), c)
+                    ast.fix_missing_locations(call2)
+                    for n_ in ast.walk(call2.func):
+                        n_._origin = self.entry
+                        ast.copy_location(n_, c)
+                    call2._origin = getattr(c, "_origin", None)
+                    call2._spelled = True
+                    new_stmt = _replace_node(stmt, c, call2)
+                    return self.expand(st, new_stmt, _ret)
             bm = self.bound_method_call(c, d)
             if bm is not None and self.should_inline(bm[0]):
                 outs = []
@@ -1993,6 +2021,44 @@ import re as _re
 _EPOCH = _re.compile(r"@(\d+)")
 _ROOT = _re.compile(r"\$[A-Za-z_?][A-Za-z0-9_]*")
 _NODE_ATTR_STORE = _re.compile(r"^(\$tracks)\.graph\.nodes\[(.+)\]\[(.+)\]$")
+
+
+def _replace_node(stmt: ast.stmt, old: ast.AST, new: ast.AST) -> ast.stmt:
+    """Copy of stmt with node `old` replaced by `new` (parents on the path rebuilt, everything else shared)."""
+
+    class R(ast.NodeTransformer):
+        def visit(self, n):
+            if n is old:
+                return new
+            return super().visit(n)
+
+        def generic_visit(self, n):
+            changed = False
+            new_fields = {}
+            for f, o in ast.iter_fields(n):
+                if isinstance(o, list):
+                    nl = []
+                    for x in o:
+                        nx_ = self.visit(x) if isinstance(x, ast.AST) else x
+                        changed = changed or nx_ is not x
+                        nl.append(nx_)
+                    new_fields[f] = nl
+                elif isinstance(o, ast.AST):
+                    nx_ = self.visit(o)
+                    changed = changed or nx_ is not o
+                    new_fields[f] = nx_
+                else:
+                    new_fields[f] = o
+            if not changed:
+                return n
+            nn = type(n)(**new_fields)
+            ast.copy_location(nn, n)
+            for a_ in ("_origin", "_dispatched", "_spelled", "_done"):
+                if hasattr(n, a_):
+                    setattr(nn, a_, getattr(n, a_))
+            return nn
+
+    return R().visit(stmt)
 
 
 def _replace_call(stmt: ast.stmt, call: ast.Call, tmp: str) -> ast.stmt:
